@@ -320,10 +320,10 @@ func (t *Topic) close() {
 
 func (t *Topic) collect(event Event) error {
 
-	prev, ok := t.updateEvent(event.State)
-	if ok {
-		event.previousState = prev
-	}
+	// The previous state is the one of this topic, an event that was published
+	// from another topic must not keep that topic's previous state.
+	prev, _ := t.updateEvent(event.State)
+	event.previousState = prev
 
 	t.collected.Add(1)
 
